@@ -1679,6 +1679,13 @@ var oddityTexts = []struct{ name, json string }{
 	{"default-object-unknown-key", "{\"type\": \"object\", \"properties\": {\"b\": {\"type\": \"string\"}}, \"default\": {\"ghost\": {\"deep\": [1, {}]}}}"},
 	{"default-nested-empty-key", "{\"type\": \"object\", \"properties\": {\"b\": {\"type\": \"object\", \"properties\": {\"c\": {\"type\": \"integer\"}}}}, \"default\": {\"b\": {\"\": 0}}}"},
 	{"default-array-of-objects-empty-key", "{\"type\": \"array\", \"items\": {\"type\": \"object\", \"properties\": {\"c\": {\"type\": \"integer\"}}}, \"default\": [{\"\": 0}]}"},
+	{"integer-default-fractional-multipleof", "{\"type\": \"integer\", \"default\": 4, \"multipleOf\": 0.5}"},
+	{"integer-default-small-multipleof", "{\"type\": [\"integer\", \"null\"], \"default\": 1, \"multipleOf\": 0.01, \"minimum\": 0}"},
+	{"integer-default-violates-bounds", "{\"type\": \"integer\", \"default\": 99, \"minimum\": 1, \"maximum\": 5, \"multipleOf\": 2}"},
+	{"number-default-violates-bounds", "{\"type\": \"number\", \"default\": -1.5, \"exclusiveMinimum\": 0, \"multipleOf\": 0.1}"},
+	{"string-default-violates-constraints", "{\"type\": \"string\", \"default\": \"x\", \"minLength\": 3, \"maxLength\": 2, \"pattern\": \"^[0-9]+$\"}"},
+	{"array-default-violates-constraints", "{\"type\": \"array\", \"items\": {\"type\": \"integer\"}, \"default\": [1], \"minItems\": 2}"},
+	{"enum-symbols-only", "{\"type\": \"string\", \"enum\": [\"<\", \"<=\", \">=\", \"==\", \"&&\", \"||\", \"<>\"]}"},
 	{"ref-unsupported-scheme", "{\"$ref\": \"ftp://example.com/x.json\"}"},
 }
 
